@@ -48,10 +48,11 @@ const (
 	opParseEmptySig
 	opParseNullSig
 	opParseTruncSig
+	opReinsertEdited
 	nC10Ops
 )
 
-var c10names = [...]string{"insert(valid+code)", "insert(valid,no-code)", "insert(invalid)", "calculate", "edit-doc", "sign(k1)", "sign(k2)", "unsign", "add-stamp", "alter-stamp", "add-link", "validate", "verify(k1)", "roundtrip", `parse(sigs:[""])`, "parse(sigs:[null])", "parse(sigs:[truncated])"}
+var c10names = [...]string{"insert(valid+code)", "insert(valid,no-code)", "insert(invalid)", "calculate", "edit-doc", "sign(k1)", "sign(k2)", "unsign", "add-stamp", "alter-stamp", "add-link", "validate", "verify(k1)", "roundtrip", `parse(sigs:[""])`, "parse(sigs:[null])", "parse(sigs:[truncated])", "reinsert(extracted+edited)"}
 
 type c10msig struct {
 	signer int
@@ -179,6 +180,20 @@ func c10run(c *Ctx, cx *c10env, seq []c10op, trans map[string]bool) (nontriv boo
 				m.digestOK = false
 			}
 			skipOutcome = true
+		case opReinsertEdited:
+			// extract the document, edit it in place, hand the same pointer back
+			inv, ok := env.Extract().(*bill.Invoice)
+			if !ok || inv == nil {
+				skipOutcome = true
+				break
+			}
+			m.edits++
+			if inv.Meta == nil {
+				inv.Meta = cbc.Meta{}
+			}
+			inv.Meta["edit"] = fmt.Sprint(m.edits)
+			pan, _ = Safely(func() { err = env.Insert(inv) })
+			m.digestOK = true
 		case opSignK1, opSignK2:
 			nontriv = true
 			k := int(op - opSignK1)
